@@ -372,6 +372,21 @@ def _range_next(w, st, fr, path, targs, args, dty):
         # Self = Range<A>
         a = targs[0][2][0] if targs[0][2] else None
         signed = bool(a and a[0] == "int" and a[2])
+    arb = getattr(w, "arbitrary_iteration", None)
+    if arb is not None and not signed and arb(st, fr, start, end):
+        # loop summarisation by an arbitrary iteration: the counter is a fresh value with start <= i < end; the
+        # iteration after it leaves the loop (the caller argues about the whole loop by induction on i)
+        k = sum(1 for n in st.notes if n[0] == "arbitrary-iteration")
+        i = tm.sym("ITER%d" % k, start.bits)
+        st.notes.append(("arbitrary-iteration", i, start, end))
+
+        def take_arb(s2):
+            s2.pc.append(("eq", tm.cmp("ule", start, i), 1))
+            w.assume(s2, tm.cmp("ule", start, i), 1)
+            w.store_to(s2, r.obj, r.proj, Agg(v.kind, 0, [end, end]))
+            return some(i)
+        ci = tm.cmp("ult", i, end)
+        return ForkValues([(ci, 1, take_arb)])
     c = tm.cmp("slt" if signed else "ult", start, end)
     c = w.simplify(st, c)
     nxt = tm.binop("add", start, K(1, start.bits))
